@@ -31,6 +31,8 @@ CONSTANTS
   MaxClock,
   PreSynced,    \* TRUE: start after the handshake (endpoints Running)
   InboxCap,     \* at most this many delivered-but-unread packets per peer (guard on Deliver)
+  EagerNet,     \* TRUE: reliable FIFO network that delivers before any session acts again (component runs)
+  DelayValues,  \* input delays set_input_delay may be called with at run time ({} = never)
   VaryAll,      \* TRUE: every peer draws inputs from Values; FALSE: only peer 0 (the others submit Default)
   Granular      \* TRUE: poll_remote_clients / events() are separate steps, packets can be dropped explicitly
 
@@ -186,7 +188,10 @@ TickWith(p, vals) ==
      /\ Feed(line)
      /\ UNCHANGED <<now, alive, dups>>
 
+NetQuiet == ~EagerNet \/ \A lk \in Links : net[lk] = <<>>
+
 Tick(p) ==
+  /\ NetQuiet
   /\ alive[p] /\ ss[p].err = ""
   /\ ss[p].sl.cur < MaxFrame
   /\ \E vals \in [1..Len(ss[p].locals) -> IF VaryAll \/ p = 0 THEN Values ELSE {Default}] : TickWith(p, vals)
@@ -268,13 +273,21 @@ SetDelayAct(p, h, d) ==
         /\ UNCHANGED <<cells, game, inbox, now, alive, dups>>
 
 NetStep ==
-  \E lk \in Links : \E k \in 1..LinkCap :
+  \E lk \in Links : \E k \in 1..(IF EagerNet THEN 1 ELSE LinkCap) :
      \/ Deliver(lk, k)
      \/ (Granular /\ Drop(lk, k))
      \/ Dup(lk, k)
 
+DelayStep ==
+  /\ NetQuiet
+  /\ \E p \in P2PIds : \E i \in 1..Len(Peers[p+1].locals) : \E d \in DelayValues :
+     /\ ss[p].sl.queues[Peers[p+1].locals[i]].delay # d
+     /\ ss[p].sl.queues[Peers[p+1].locals[i]].last_added <= MaxFrame    \* keeps the exploration finite
+     /\ SetDelayAct(p, Peers[p+1].locals[i], d)
+
 Next ==
   \/ \E p \in P2PIds : Tick(p) \/ (Granular /\ (Poll(p) \/ Events(p)))
+  \/ DelayStep
   \/ NetStep
   \/ \E d \in ClockSteps : Tock(d)
 
